@@ -204,10 +204,9 @@ TABLE: dict[str, list[tuple]] = {
         ("after a rotation a path is (re)started only when it has not been "
          "walked yet: its diagram node is still the block's START node "
          "itself (a walked path can sit on the END operator of a nested "
-         "block - also an operator node)", "store", "",
-         "P:logic_list[USub(1)].current_path_puml_node",
-         (f"handle_logic_list_next_path(P:puml_graph,P:logic_list,{_ROT}[1])"
-          "[0]",),
+         "block - also an operator node)", "call",
+         "handle_logic_list_next_path", "",
+         ("P:puml_graph", "P:logic_list", f"{_ROT}[1]"),
          [("cmp", f"{_ROT}[0]", "Eq", "P:logic_list[USub(1)].start_node",
            "1")], [], ""),
     ],
